@@ -38,7 +38,7 @@ def scenario_sets(ctx):
 
 
 def run(ctx, invs=INVS, rel=P.rel_c07, witnesses=("W_Ann", "W_Pruned"), finish=True,
-        node_rel=lambda a: "ev.ParentReady" in a):
+        node_rel=lambda a: "ev.ParentReady" in a, node_sims=None):
     ctx.build_harness()
     ctx.assumptions += ["certificate universes are consistent (producible with <20% Byzantine stake): "
                         "one notarized block per slot, no skip certificate next to a finalization"]
@@ -59,6 +59,6 @@ def run(ctx, invs=INVS, rel=P.rel_c07, witnesses=("W_Ann", "W_Pruned"), finish=T
     # code -> spec on real executions: every pool call / Votor step of every correct node of simulated networks
     # (equivocating and noisy Byzantine validators, loss, crashes, standstill recovery) is a transition of the spec
     from .. import nodetrace as NT
-    NT.component_sims(ctx, node_rel)
+    NT.component_sims(ctx, node_rel, names=node_sims)
     return ctx.finish(rule="every transition of the certificate-delivery models (all arrival orders of a consistent "
                            "certificate universe + block registrations + waiter registration) is one case")
